@@ -394,7 +394,8 @@ func (m *Manager) internalProcessConfig(cur configs.QueueConfig, queuePath strin
 	}
 	if len(cur.Queues) > 0 {
 		for _, child := range cur.Queues {
-			childQueuePath := queuePath + configs.DOT + child.Name
+			// queue paths are always lower case, the name in the config is not
+			childQueuePath := queuePath + configs.DOT + strings.ToLower(child.Name)
 			if err := m.internalProcessConfig(child, childQueuePath, newUserLimits, newGroupLimits, newUserWildCardLimitsConfig, newGroupWildCardLimitsConfig, newConfiguredGroups); err != nil {
 				return err
 			}
